@@ -205,6 +205,75 @@ def wallet_state(w):
     return [list(w.keypairs.items()), list(w.unused_public_keys), sorted(w.public_key_annotations.items())]
 
 
+def script_level(ck, tier):
+    """the wallet as the command-line scripts use it: (a) `skepticoin-receive` shows an address only once it is safely
+    recorded as handed out -- a run killed at its save shows nothing, and no two runs ever show the same address;
+    (b) a wallet saved with a non-ASCII annotation is loaded back by the scripts' loader in a process whose locale is not
+    UTF-8 (LC_ALL=C, UTF-8 mode off)"""
+    import subprocess
+    import sys
+    from skepticoin.wallet import Wallet, save_wallet
+    from skepticoin.scripts import receive as R
+    for f in ('wallet.json', 'wallet.json.new'):
+        if os.path.exists(f):
+            os.unlink(f)
+    w = Wallet.empty()
+    w.generate_keys(6)
+    save_wallet(w)
+    shown = []
+    argv = sys.argv
+    try:
+        for run_no, kill in enumerate((False, True, False, True, False)):
+            sys.argv = ['skepticoin-receive', 'run %d' % run_no]
+            buf = io.StringIO()
+            audit_begin('wallet.json', kill=kill)
+            try:
+                with contextlib.redirect_stdout(buf):
+                    try:
+                        R.main()
+                    except Killed:
+                        pass
+                    except SystemExit:
+                        pass
+            finally:
+                audit_end()
+            out = [ln.strip() for ln in buf.getvalue().splitlines() if ln.strip().startswith('SKE')]
+            ck.case(('receive', run_no), kind='receive-script/%s' % ('killed-at-save' if kill else 'normal'))
+            for a in out:
+                if a in shown:
+                    ck.violation('address-shown-twice', 'skepticoin-receive showed an address in run %d that an earlier run (killed '
+                                 'at its save) had already shown' % run_no, {'script': 'receive', 'run': run_no, 'killed_runs': [1, 3]})
+                shown.append(a)
+    finally:
+        sys.argv = argv
+    # (b) non-UTF-8 locale
+    for f in ('wallet.json', 'wallet.json.new'):
+        if os.path.exists(f):
+            os.unlink(f)
+    code = (
+        "import sys, os\n"
+        "sys.path.insert(0, %r)\n"
+        "from skepticoin.wallet import Wallet, save_wallet\n"
+        "from skepticoin.scripts.utils import open_or_init_wallet\n"
+        "w = Wallet.empty(); w.generate_keys(3)\n"
+        "k = w.get_annotated_public_key('ch\\u00e4ng\\u00e9 \\u2713 \\u6f22')\n"
+        "save_wallet(w)\n"
+        "w2 = open_or_init_wallet()\n"
+        "ok = (list(w2.keypairs.items()) == list(w.keypairs.items()) and w2.unused_public_keys == w.unused_public_keys and w2.public_key_annotations == w.public_key_annotations)\n"
+        "print('ROUNDTRIP', ok)\n" % common.REPO)
+    env = dict(os.environ, LC_ALL='C', LANG='C', PYTHONUTF8='0', PYTHONCOERCECLOCALE='0', PYTHONIOENCODING='ascii:backslashreplace')
+    cp = subprocess.run([sys.executable, '-c', code], env=env, stdout=subprocess.PIPE, stderr=subprocess.STDOUT, text=True,
+                        timeout=120, cwd=os.getcwd())
+    ck.case(('locale',), kind='wallet-roundtrip-in-C-locale')
+    if 'ROUNDTRIP True' not in cp.stdout:
+        ck.violation('load-differs', 'in a process with LC_ALL=C (UTF-8 mode off) a wallet saved with a non-ASCII annotation is not '
+                     'loaded back by the scripts\' loader: %s' % cp.stdout.strip().splitlines()[-1][:200],
+                     {'locale': 'C', 'annotation': 'non-ASCII'})
+    for f in ('wallet.json', 'wallet.json.new'):
+        if os.path.exists(f):
+            os.unlink(f)
+
+
 def run(tier, seed):
     ck = common.Check('C15', tier, seed)
     ck.rule = ('wallets of 0-6 key pairs; random sequences (6-20 ops) of hand-outs (receive / mining reservations), restores of '
@@ -429,6 +498,11 @@ def run(tier, seed):
     if xdev:
         import shutil
         shutil.rmtree(xdev, ignore_errors=True)
+    try:
+        script_level(ck, tier)
+    except Exception:
+        import traceback
+        ck.disagree('script-level wallet probe crashed: %s' % traceback.format_exc()[-500:], {})
     # ---- balance over annotated and unused keys
     from skepticoin.wallet import Wallet as Wl
     keys = chaingen.Keys()
